@@ -2,18 +2,20 @@ import XmppVerif.Gen.RecvSwitch
 /-
 Tie (regenerated facts) for C05 / C09 / C12: the shape of `Client.recv` and `Component.recv` that the model
 `Model/Recv.lean` transcribes. These are the facts a correspondence run cannot establish by sampling: that routing
-happens in its own goroutine for the client and synchronously for the component, that `close(keepaliveQuit)` is
-deferred, which case arms return, and which packet types increment the inbound counter.
+happens in its own goroutine for the client and synchronously for the component, that the close of the keepalive's quit channel is
+deferred and precedes every report of the loss, which case arms return, and which packet types increment the inbound counter.
 -/
 namespace XmppVerif.Tie.Recv
 open XmppVerif.Gen.RecvSwitch
 
-theorem tie_client_defers : clientDefers = ["close(keepaliveQuit)"] := by decide
-theorem tie_client_err : clientErrBranch = ["c.ErrorHandler", "c.disconnected", "return"] := by decide
+/-- the close of the keepalive's quit channel is deferred (under a sync.Once: `stopKeepalive`), and every exit of the
+loop calls it BEFORE it reports the loss (F-18b) -/
+theorem tie_client_defers : clientDefers = ["stopKeepalive()"] ∧ clientRecvFuncLits = [["once.Do"]] := by decide
+theorem tie_client_err : clientErrBranch = ["stopKeepalive", "c.ErrorHandler", "c.disconnected", "return"] := by decide
 theorem tie_client_cases : clientCases =
   [(["stanza.StreamError"], ["c.router.route", "c.streamError", "c.ErrorHandler", "c.Disconnect"]),
-   (["stanza.SMRequest"], ["c.Send", "if:c.ErrorHandler", "if:c.disconnected", "if:return"]),
-   (["stanza.StreamClosePacket"], ["c.transport.ReceivedStreamClose", "c.disconnected", "return"]),
+   (["stanza.SMRequest"], ["c.Send", "if:stopKeepalive", "if:c.ErrorHandler", "if:c.disconnected", "if:return"]),
+   (["stanza.StreamClosePacket"], ["stopKeepalive", "c.transport.ReceivedStreamClose", "c.disconnected", "return"]),
    (["stanza.Message", "stanza.Presence", "*stanza.IQ"], ["c.Session.SMState.Inbound++"])] := by decide
 theorem tie_client_after : clientAfterSwitch = ["go c.router.route"] := by decide
 theorem tie_component_err : componentErrBranch = ["c.updateState", "c.ErrorHandler", "return"] := by decide
